@@ -132,8 +132,10 @@ Rename == /\ IsCall("rename") /\ IsMani(Ev.path2) /\ ~Fails
           /\ dir' = [n \in DOMAIN dir \ {Ev.path} |-> IF n = Ev.path2 THEN dir[Ev.path] ELSE dir[n]]
           /\ UNCHANGED <<ino, nextino, mem, hist, acked, pending, faulted, phase>>
 
+\* Manifest::open reads MANIFEST first; the roll-over it then performs rolls up what it read
 MOpenBegin == /\ IsMark("open-begin")
-              /\ UNCHANGED <<dir, ino, nextino, mem, hist, acked, pending, faulted, phase>>
+              /\ mem' = IF Exists("MANIFEST") THEN FileState(Content("MANIFEST")) ELSE EmptyState
+              /\ UNCHANGED <<dir, ino, nextino, hist, acked, pending, faulted, phase>>
 
 \* open returns what the file says, which is the latest state (everything applied before was acknowledged)
 MOpenAck == /\ IsMark("open-ack")
@@ -162,6 +164,10 @@ MApplyErr == /\ IsMark("apply-err")
              /\ G("an error is reported only after a fault (C01: no fault-free operation fails)", faulted)
              /\ hist' = [hist EXCEPT ![Len(hist)].st = "failed"]
              /\ UNCHANGED <<dir, ino, nextino, mem, acked, pending, faulted, phase>>
+
+MRolloverErr == /\ IsMark("rollover-err")
+                /\ G("a rollover fails only after a fault", faulted)
+                /\ UNCHANGED <<dir, ino, nextino, mem, hist, acked, pending, faulted, phase>>
 
 MOpenErr == /\ IsMark("open-err")
             /\ G("open fails only after a fault", faulted)
@@ -214,7 +220,7 @@ MCutErr == /\ IsMark("cut-recover-err")
            /\ UNCHANGED <<dir, ino, nextino, mem, hist, acked, pending, faulted, phase>>
 
 TraceNext == \/ Reset \/ Other \/ FailedCall \/ Creat \/ Write \/ Sync \/ Link \/ Unlink \/ Rename
-             \/ MOpenBegin \/ MOpenAck \/ MOpenErr \/ MApplyBegin \/ MApplyAck \/ MApplyErr \/ MRefused \/ MRollover
+             \/ MOpenBegin \/ MOpenAck \/ MOpenErr \/ MRolloverErr \/ MApplyBegin \/ MApplyAck \/ MApplyErr \/ MRefused \/ MRollover
              \/ Crash \/ MRecovered \/ MCutBegin \/ MCutRecovered \/ MCutErr
 TraceSpec == Init /\ [][TraceNext]_vars
 
